@@ -241,6 +241,9 @@ func (m *moduleEngine) ResolveImportedFunction(index, descFunc, indexInImportedM
 	executableOffset, moduleCtxOffset, typeIDOffset := m.parent.offsets.ImportedFunctionOffset(index)
 	importedME := importedModuleEngine.(*moduleEngine)
 
+	// importedFunction.indexInModule is in the function index space of the imported module (imports first), as
+	// NewFunction and the recursive resolution below expect, while the offsets below are per local function.
+	indexInModule := indexInImportedModule
 	if int(indexInImportedModule) >= len(importedME.importedFunctions) {
 		indexInImportedModule -= wasm.Index(len(importedME.importedFunctions))
 	} else {
@@ -258,7 +261,7 @@ func (m *moduleEngine) ResolveImportedFunction(index, descFunc, indexInImportedM
 	binary.LittleEndian.PutUint64(m.opaque[typeIDOffset:], uint64(typeID))
 
 	// Write importedFunction so that it can be used by NewFunction.
-	m.importedFunctions[index] = importedFunction{me: importedME, indexInModule: indexInImportedModule}
+	m.importedFunctions[index] = importedFunction{me: importedME, indexInModule: indexInModule}
 }
 
 // ResolveImportedMemory implements wasm.ModuleEngine.
